@@ -132,7 +132,13 @@ func GarbageFrame(class int) []byte {
 		binary.LittleEndian.PutUint16(b[5:], tag)
 		return append(b, body...)
 	}
-	switch class % 6 {
+	switch class % 9 {
+	case 6: // a size no receive buffer can hold, with the top bit set (negative as int32)
+		return put(0x80000000, wire.Rread, 1, 1, 2, 3, 4)
+	case 7: // the largest size
+		return put(0xFFFFFFFF, wire.Rread, 1, 1, 2, 3, 4)
+	case 8: // the largest positive int32
+		return put(0x7FFFFFFF, wire.Rread, 1, 1, 2, 3, 4)
 	case 0: // message type outside the protocol
 		return put(9, 250, 1, 0xde, 0xad)
 	case 1: // declared size below the header size
@@ -148,7 +154,7 @@ func GarbageFrame(class int) []byte {
 	}
 }
 
-var GarbageClasses = []string{"badtype", "size4", "size0", "trailing", "readcount", "type0"}
+var GarbageClasses = []string{"badtype", "size4", "size0", "trailing", "readcount", "type0", "size2g", "sizemax", "size2g-1"}
 
 // OversizeFrame announces a frame larger than the client's receive buffer (8*msize) and then
 // supplies that many bytes.
